@@ -354,3 +354,24 @@ func genFault(seed int64, allow map[string]bool) *Scenario {
 	}
 	return b.sc
 }
+
+// genBots: tables whose players are all bots (C18: bot tables play out).
+func genBots(seed int64, allow map[string]bool) *Scenario {
+	b := newBuilder(seed, 6)
+	r := b.r
+	b.sc.Mode = "ct"
+	b.sc.N = 2 + r.Intn(8)
+	b.sc.ActionTime = 0
+	b.sc.Blind = []int64{1, int64(r.Intn(2)), 0, int64(r.Intn(2)), 2}
+	k := 2 + r.Intn(min(b.sc.N-1, 6))
+	perm := r.Perm(b.sc.N)
+	for i := 0; i < k; i++ {
+		b.add(Op{Op: "reserve", ID: b.newID(), Seat: perm[i], Chips: []int64{1, 2, 3, 5, 9, 14, 30, 60}[r.Intn(8)]})
+	}
+	b.add(Op{Op: "sleep", Amt: 250}) // the bots ask to sit in by themselves (100 ms)
+	b.add(Op{Op: "start"})
+	for h, hs := 0, 3+r.Intn(5); h < hs; h++ {
+		b.hand(b.plan())
+	}
+	return b.sc
+}
